@@ -15,7 +15,8 @@ EXTENDS Naturals, Integers, Sequences, FiniteSets, FiniteSetsExt, TLC
 Kinds == <<[cs |-> {0}, ws |-> {}], [cs |-> {1}, ws |-> {}], [cs |-> {2}, ws |-> {}],
            [cs |-> {0, 1}, ws |-> {}], [cs |-> {1, 2}, ws |-> {}], [cs |-> {0, 2}, ws |-> {}],
            [cs |-> {}, ws |-> {0}], [cs |-> {}, ws |-> {2}], [cs |-> {1}, ws |-> {1}],
-           [cs |-> {}, ws |-> {0, 1}], [cs |-> {}, ws |-> {1, 2}]>>
+           [cs |-> {}, ws |-> {0, 1}], [cs |-> {}, ws |-> {1, 2}],
+           [cs |-> {0, 2}, ws |-> {}], [cs |-> {0, 1}, ws |-> {2}]>>     \* 12, 13: binary compounds (constants on both sides)
 
 Empty == [cs |-> {}, ws |-> {}, offerC |-> 0, offerW |-> 0]
 
